@@ -19,9 +19,9 @@ import (
 )
 
 type Out struct {
-	Dma []DmaCase `json:"dma"`
-	Drv []DrvCase `json:"drv"`
-	Ovl []OvlCase `json:"ovl"`
+	Dma  []DmaCase  `json:"dma"`
+	Drv  []DrvCase  `json:"drv"`
+	Ovl  []OvlCase  `json:"ovl"`
 	Hist []HistCase `json:"hist"`
 }
 
